@@ -21,7 +21,12 @@ func NewIndividualAdditionalNames(individual *gedcom.IndividualNode) *Individual
 
 func (c *IndividualAdditionalNames) WriteHTMLTo(w io.Writer) (int64, error) {
 	rows := []core.Component{}
-	names := c.individual.Names()[1:]
+	names := c.individual.Names()
+
+	// All names but the first. There may not be a name at all.
+	if len(names) > 0 {
+		names = names[1:]
+	}
 
 	for _, name := range names {
 		row := core.NewKeyedTableRow(
